@@ -7,6 +7,8 @@ import (
 	"strconv"
 	"sync"
 
+	"github.com/go-git/go-billy/v5/util"
+
 	"github.com/MichaelMure/git-bug/entity"
 	"github.com/MichaelMure/git-bug/repository"
 	"github.com/MichaelMure/git-bug/util/multierr"
@@ -173,7 +175,10 @@ func (c *RepoCache) lock(events chan BuildEvent) error {
 		return err
 	}
 
-	f, err := c.repo.LocalStorage().Create(lockfile)
+	// The lock file has to appear with its content: written in place, a process dying between the
+	// creation and the write would leave an empty lock that nobody can ever clean (it names no
+	// process to check), and a concurrent reader would find no pid.
+	f, err := util.TempFile(c.repo.LocalStorage(), "", "lock-")
 	if err != nil {
 		return err
 	}
@@ -182,10 +187,17 @@ func (c *RepoCache) lock(events chan BuildEvent) error {
 	_, err = f.Write([]byte(pid))
 	if err != nil {
 		_ = f.Close()
+		_ = c.repo.LocalStorage().Remove(f.Name())
 		return err
 	}
 
-	return f.Close()
+	err = f.Close()
+	if err != nil {
+		_ = c.repo.LocalStorage().Remove(f.Name())
+		return err
+	}
+
+	return c.repo.LocalStorage().Rename(f.Name(), lockfile)
 }
 
 func (c *RepoCache) Close() error {
